@@ -22,7 +22,7 @@ from pyvc.values import AbsObj, Arr, Obj, Opaque, PDict, PList, SV, mk, sym, to_
 OPS = ("add", "add_shared", "update", "remove", "reopen", "add_nan", "add_text", "update_text", "remove_hole_ws", "remove_hole_parent", "copy_group", "group_data", "idle_session",
        "add_iv", "update_iv", "copy_other_edit", "add_note", "remove_note", "group_comment", "group_comment_remove", "rename", "list_registries")
 # operations added later draw from their own random stream, so that the histories sampled above stay the same
-OPS_LATER = ("remove_pg", "rename_onto", "copy_onto_own_hole", "second_group")
+OPS_LATER = ("remove_pg", "rename_onto", "copy_onto_own_hole", "second_group", "table_push")
 
 
 def _file_tiling(path):
@@ -108,6 +108,7 @@ def run_history(case):
         group_data = {}
         group_plain = {}
         removed = {}
+        pushed = {}
         removed_pgs = {}
         table_seen = [False]
         other = [None]  # a second workspace holding a copy of the group, kept open
@@ -192,6 +193,11 @@ def run_history(case):
                     want_ids = [uid_of[hn] for hn in in_table]
                     if sorted(listed_ids) != sorted(want_ids):
                         return f"{where}: the table view lists {len(listed_ids)} holes {listed_ids}, the holes holding interval data are {want_ids}"
+                    for col_name, column in pushed.items():
+                        if col_name.endswith("_iv"):
+                            continue  # compared hole by hole below
+                        if col_name in (tab.dtype.names or ()) and len(tab[col_name]) == len(column) and not np.allclose(np.asarray(tab[col_name], dtype=float), column, equal_nan=True):
+                            return f"{where}: the table view lists {np.asarray(tab[col_name]).tolist()} in the column {col_name!r} pushed through it; {column.tolist()} was pushed"
                     for hn in in_table:
                         rows = tab[np.array([k == uid_of[hn] for k in ids], dtype=bool)]
                         for dname, exp in model[hn].items():
@@ -275,6 +281,29 @@ def run_history(case):
                     if dn in model[hname]:
                         del model[hname][dn]
                         removed.setdefault(hname, set()).add(dn)
+            elif op == "table_push":
+                # a column pushed through the group-wide table of 'assays' (one value per row): under a fresh name, and
+                # (odd steps) under a name some hole already uses for a depth log -- refused with nothing changed, or listed as pushed
+                tabs = g.drillholes_tables
+                if "assays" in tabs:
+                    tab = tabs["assays"]
+                    rows = tab.depth_table
+                    ids = [x.decode() if isinstance(x, bytes) else str(x) for x in rows["Drillhole"]]
+                    names_ = [f"push{step}_iv"]
+                    if step % 2 and any(name in model[hn] for hn in model):
+                        names_.insert(0, name)
+                    for col_name in names_:
+                        column = np.arange(len(ids)) * 1.5 + 1000.0 + step
+                        try:
+                            tab.add_values_to_property_group(col_name, column.copy())
+                        except (KeyError, ValueError):
+                            continue
+                        pushed[col_name] = column
+                        for hn in model:
+                            huid = "{" + str([c for c in g.children if c.name == hn][0].uid) + "}"
+                            mask = np.array([k == huid for k in ids], dtype=bool)
+                            if mask.any():
+                                model[hn][col_name] = column[mask]
             elif op == "second_group":
                 # the hole's numeric depth logs are also listed by a second property group
                 members = [hole.get_data(n)[0].uid for n in sorted(model[hname]) if not n.endswith(("_txt", "_note", "_iv")) and hole.get_data(n) and hole.get_data(n)[0] is not None]
@@ -584,6 +613,9 @@ class ConcatHistories(Contract):
             [("add", 0, "Au"), ("add", 0, "Cu"), ("reopen", 0, ""), ("rename_onto", 0, "Cu"), ("update", 0, "Au"), ("reopen", 0, "")],
             [("add", 0, "Au"), ("add", 0, "Cu"), ("add", 1, "Au"), ("second_group", 0, ""), ("remove", 0, "Au"), ("reopen", 0, "")],
             [("add", 0, "Au"), ("add", 0, "Cu"), ("second_group", 0, ""), ("reopen", 0, ""), ("remove", 0, "Cu"), ("remove", 0, "Au"), ("reopen", 0, "")],
+            # columns pushed through the group-wide table view
+            [("add_iv", 0, "Au"), ("add_iv", 1, "Au"), ("add", 1, "Cu"), ("table_push", 0, "Cu"), ("reopen", 0, "")],
+            [("add", 0, "Cu"), ("add_iv", 0, "Au"), ("add_iv", 1, "Au"), ("reopen", 0, ""), ("list_registries", 0, ""), ("table_push", 1, "Cu"), ("reopen", 0, "")],
             # one log of an interval table goes while others stay: the intervals (FROM / TO) stay with them
             [("add_iv", 0, "Au"), ("add_iv", 0, "Cu"), ("add_iv", 1, "Au"), ("remove", 0, "Au_iv"), ("reopen", 0, ""), ("update_iv", 0, "Cu")],
             [("add_iv", 0, "Au"), ("add_iv", 0, "Cu"), ("reopen", 0, ""), ("remove", 0, "Cu_iv"), ("reopen", 0, "")],
